@@ -242,6 +242,17 @@ def gaussian_field(shape, spacing, centres, widths, amps):
     return f
 
 
+def oriented_triangles(verts, faces):
+    """sorted list of triangles as vertex-coordinate triples (rounded to 1e-5), each rotated to start at its smallest vertex: keeps orientation"""
+    V = np.round(np.asarray(verts, dtype=np.float64), 5)
+    out = []
+    for f in np.asarray(faces):
+        t = [tuple(V[i]) for i in f]
+        k = t.index(min(t))
+        out.append((t[k], t[(k + 1) % 3], t[(k + 2) % 3]))
+    return sorted(out)
+
+
 def smooth_worker(part, job):
     kind = job[0]
     if kind == "blobs-nodegenerate":
@@ -281,6 +292,24 @@ def smooth_worker(part, job):
         else:
             s = check_mesh_on_grid(part, vol, lev, spacing, direction, case, "smooth:descent")
         part.nstates(1)
+        # the same samples handed over in another memory layout / dtype give the same oriented mesh
+        if not MC_OPTIONS:
+            try:
+                base = oriented_triangles(*call_mc(vol, lev, spacing, direction)[:2])
+                big = np.zeros(tuple(2 * n for n in shape), dtype=np.float32)
+                big[::2, ::2, ::2] = vol
+                variants = (("fortran", np.asfortranarray(vol)), ("float64", vol.astype(np.float64)), ("strided", big[::2, ::2, ::2]),
+                            ("transposed-view", np.ascontiguousarray(vol.transpose(2, 1, 0)).transpose(2, 1, 0)))
+                for lname, v in variants:
+                    part.ev()
+                    part.tr()
+                    got = oriented_triangles(*call_mc(v, lev, spacing, direction)[:2])
+                    if got != base:
+                        part.fail("layout-dependence:%s:%s" % (lname, direction), "the mesh of identical samples changes with the array's memory layout / dtype (%s): %d of %d oriented triangles differ"
+                                  % (lname, len(set(got) ^ set(base)), len(base)), dict(case, layout=lname))
+                    part.outcome(("layout", lname, direction))
+            except Exception as e:
+                part.fail("layout-raise:%s" % direction, "marching cubes on a re-laid-out volume raised %r" % e, case)
     else:
         # volume ladder: sphere / ellipsoid, pitch h, h/2, h/4
         _, radii, direction = job
